@@ -1,6 +1,6 @@
 import PynProps.C08
 /-!
-# C08, `_get_slice(start, mode="before_t")` for a single instant
+# C08, `_get_slice(start, mode="before_t" / "after_t")` for a single instant
 The internal mode `before_t` (used with `n_points` / by callers that want the sample preceding an instant) — index
 arithmetic on `searchsorted(side="left")` with a `-1` correction and the clamp at the end of the array.  For
 non-decreasing timestamps of ANY positive length and ANY `start`: the slice is empty exactly when every sample lies after
@@ -64,12 +64,46 @@ theorem get_before (t : Array Int) (hs : Sorted t) (hn : 0 < t.size) (s : Int) :
     have hv' : ¬ (s < t[t.size - 1]'hl) := by omega
     simp [hsz, pl, bind, Except.bind, pure, Except.pure, b2i, hv', e, hnn]
 
+/-- **mode `after_t`, single instant** (exact characterisation, including the documented edge: when the earliest sample at or
+after `start` is the LAST sample of the series — or there is none — the slice is the empty `(n-1, n-1)`): otherwise the slice
+is the one position holding the earliest sample at or after `start` -/
+theorem get_after (t : Array Int) (hs : Sorted t) (hn : 0 < t.size) (s : Int) :
+    (∃ i : Nat, ∃ hi : i < t.size, i + 1 < t.size ∧ getSlice t 1 s none = .ok ((i : Int), (i : Int) + 1) ∧ s ≤ t[i] ∧
+      ∀ k, (hk : k < t.size) → k < i → t[k] < s) ∨
+    (getSlice t 1 s none = .ok ((t.size : Int) - 1, (t.size : Int) - 1) ∧ ∀ k, (hk : k < t.size) → k + 1 < t.size → t[k] < s) := by
+  have hb := ssLeft_bounds t s 0 (Nat.zero_le _)
+  obtain ⟨sp1, sp2⟩ := ssLeft_spec t s 0 hs
+  rcases Nat.lt_or_ge (ssLeft t s 0 + 1) t.size with hlt | hge
+  · left
+    refine ⟨ssLeft t s 0, by omega, hlt, ?_, ?_, fun k hk hki => sp1 k (by omega) hki hk⟩
+    · unfold getSlice
+      have hne : ¬ (((ssLeft t s 0 : Nat) : Int) = (t.size : Int)) := by omega
+      have hne2 : ¬ (((ssLeft t s 0 : Nat) : Int) = (t.size : Int) - 1) := by omega
+      have hnn : ¬ (((ssLeft t s 0 : Nat) : Int) < 0) := by omega
+      simp [hne, hne2, hnn, pure, Except.pure]
+    · have := sp2 (ssLeft t s 0) (Nat.le_refl _) (by omega); omega
+  · right
+    refine ⟨?_, fun k hk hk1 => sp1 k (by omega) (by omega) hk⟩
+    unfold getSlice
+    rcases Nat.lt_or_ge (ssLeft t s 0) t.size with h | h
+    · have e : ((ssLeft t s 0 : Nat) : Int) = (t.size : Int) - 1 := by omega
+      have hne : ¬ ((t.size : Int) - 1 = (t.size : Int)) := by omega
+      have hnn : ¬ ((t.size : Int) - 1 < 0) := by omega
+      simp [e, hne, hnn, pure, Except.pure]
+    · have e : ((ssLeft t s 0 : Nat) : Int) = (t.size : Int) := by omega
+      have hnn : ¬ ((t.size : Int) - 1 < 0) := by omega
+      simp [e, hnn, pure, Except.pure]
+
 def sliceIs : Except SliceErr (Int × Int) → Int × Int → Bool
   | .ok p, q => p == q
   | _, _ => false
 
 example : sliceIs (getSlice #[0, 1000, 1000, 3000] 0 1000 none) (1, 2) ∧ sliceIs (getSlice #[0, 1000, 1000, 3000] 0 2500 none) (2, 3)
     ∧ sliceIs (getSlice #[0, 1000, 1000, 3000] 0 (-5) none) (0, 0) ∧ sliceIs (getSlice #[0, 1000, 1000, 3000] 0 9000 none) (3, 4) := by
+  decide +kernel
+
+example : sliceIs (getSlice #[0, 1000, 1000, 3000] 1 500 none) (1, 2) ∧ sliceIs (getSlice #[0, 1000, 1000, 3000] 1 2500 none) (3, 3)
+    ∧ sliceIs (getSlice #[0, 1000, 1000, 3000] 1 9000 none) (3, 3) := by
   decide +kernel
 
 end Pyn.C08
